@@ -210,6 +210,21 @@ def run(pid, tier, seed, replay=None):
             judge_divergence(ck, pid, name, consts, d)
         ck.impl_drift += s["divergent"]
 
+    # witnesses of repaired defects stay in the corpus and are re-run every time
+    for cf in sorted(os.listdir(os.path.join(vlib.ROOT, "corpus"))):
+        if not cf.startswith(pid + "-"):
+            continue
+        rp = json.load(open(os.path.join(vlib.ROOT, "corpus", cf)))
+        tpath = os.path.join(w, "corpus.ndjson")
+        vlib.run_driver("toplink", rp["args"] + [f"out={tpath}"])
+        rc = rp["cfg"]
+        pr, _ = validate_trace(pid, tpath, rc["n"], rc["tick"], rc["gmin"], rc["gmax"], f"{pid}_corpus", impl=False)
+        ck.add_tlc(pr, "trace_corpus")
+        ck.traces += rc["runs"]
+        log(f"[{pid}] corpus {cf}: {'ok' if not (pr.violated or pr.unmatched) else 'REJECTED'}")
+        if pr.violated or pr.unmatched:
+            ck.violation(dict(rp, violated_clause=pr.violated, unmatched=pr.unmatched, corpus=cf))
+
     # 3. code -> spec -------------------------------------------------------
     first = True
     for i, rc in enumerate(random_configs(pid, tier, seed)):
